@@ -66,4 +66,24 @@ def signRootMdFileViaGpg (G : GpgBackend) (sslib : Bool) (file : Option Bytes) (
   let env' ← signRootMdDictViaGpg G sslib md fpr     -- 269
   pure (ser env')                                   -- 274
 
+/-- arguments of any Python kind: everything outside the JSON universe fails the first format check it meets (all argument errors) -/
+def signRootMdDictViaGpgV (G : GpgBackend) (sslib : Bool) (env fpr : PyVal) : Res J := do
+  checkSslib sslib
+  match env, fpr with
+  | .j e, .j f => signRootMdDictViaGpg G sslib e f
+  | _, _ => .error .arg
+
+def signViaGpgV (G : GpgBackend) (sslib : Bool) (data fpr : PyVal) (includeFingerprint : Bool) : Res J := do
+  checkSslib sslib
+  match fpr with
+  | .j f => signViaGpg G sslib data f includeFingerprint
+  | _ => .error .arg
+
+def fetchKeyvalFromGpgV (G : GpgBackend) (sslib : Bool) (fpr : PyVal) : Res PStr := do
+  checkSslib sslib
+  match fpr with
+  | .j f => fetchKeyvalFromGpg G sslib f
+  | .bytes _ | .bytearray _ => .error .arg     -- bytes.replace(" ", "") : TypeError
+  | _ => .error .attribute
+
 end CCT
